@@ -38,6 +38,8 @@ void fb_slots_reset(void);
     vp_progress();                              \
   } while (0)
 
+// optional extra diagnostics printed (to stderr and as a note) when the runtime is found stranded
+extern void (*fb_stranded_diag)(void);
 // standard stranded callback: one violation per distinct 'where' among unfinished slots
 void fb_stranded_cb(void);
 
